@@ -73,7 +73,18 @@ func verifDocSchema(part int) *schema.Schema {
 			// MarshalHCL deliberately does not export (see diff.autoIncChange)
 			id.AddAttrs(&AutoIncrement{})
 		case 7:
-			d.SetCharset("latin1").SetCollation("latin1_bin")
+			// charset / collation of table and column in every inherit / override combination
+			if verifBool("tcharset") {
+				t0.SetCharset("utf8mb4").SetCollation("utf8mb4_0900_ai_ci")
+			}
+			switch verifChoice("ccharset", 4) {
+			case 1:
+				d.SetCharset("latin1").SetCollation("latin1_bin") // both differ from the table
+			case 2:
+				d.SetCharset("utf8mb4").SetCollation("utf8mb4_bin") // same charset, other collation
+			case 3:
+				d.SetCharset("utf8mb4").SetCollation("utf8mb4_0900_ai_ci") // both as the table
+			}
 		case 8:
 			t0.SetCharset("utf8mb4").SetCollation("utf8mb4_bin")
 		case 9:
@@ -176,7 +187,9 @@ func verifDocRoundTrip(s *schema.Schema) {
 	}
 	verifReach("evaluated")
 	c1, err := DefaultDiff.SchemaDiff(s, &s2)
-	verifAssert(err == nil, "diff original -> evaluated")
+	if err != nil {
+		verifAssert(false, "diff original -> evaluated: "+err.Error())
+	}
 	for _, c := range c1 {
 		verifAssert(false, "no change between the schema and its HCL image: "+verifChangeText(c))
 	}
